@@ -5,7 +5,11 @@ traced with sys.settrace and parks at each 'line' event whose code lives in
 socket_hub.py (optionally socket.py too); the main thread decides who runs next.
 The hub's shared containers are replaced by logging subclasses (same behaviour,
 each shared access is appended to one global access log), the lock by a
-cooperative lock, `sleep` by a parking no-op.
+cooperative lock, `sleep` by a parking no-op; every other blocking primitive the
+traced modules can name (threading.Lock/RLock/Event/Condition/Semaphore, time.sleep, the
+threading / time modules themselves) is replaced in their namespaces by a schedulable
+version, and a wall-clock watchdog bounds every resume: a thread that does not come
+back (blocked in a wait the scheduler cannot see) ends the run as "stuck".
 
 A configuration is a list of threads  dict(key=[app, remote, sid], cb=bool, ops=[...])
 with ops  ["connect"] | ["send", m] | ["recv"] | ["recvnb"] | ["disconnect"].
@@ -18,16 +22,37 @@ A schedule is a list of thread ids.  Two granularities:
 import importlib
 import sys
 import threading
+import time as _time
+
+LEAKED = 0        # threads left blocked for real (un-patched blocking primitive) over the whole process
 from collections import defaultdict
+
+
+def _taken_lock():
+    l = threading.Lock()
+    l.acquire()
+    return l
+
+
+def _give(l):
+    try:
+        l.release()
+    except RuntimeError:      # already free (only while a run is being torn down)
+        pass
 
 
 class _Abort(BaseException):
     pass
 
 
+class _Stuck(Exception):
+    pass
+
+
 class Run:
     """One execution of a configuration under a schedule."""
     STALE = 220
+    WATCHDOG = 2.5       # seconds of wall clock a resumed thread may take to reach its next scheduling point
 
     def __init__(self, cfg, trace_socket_py=False, max_steps=6000):
         self.cfg = cfg
@@ -46,8 +71,9 @@ class Run:
         self.storage = [[] for _ in cfg]
         self.lost = [0] * self.n
         self.status = ["new"] * self.n        # new | parked | done | blocked
-        self.sems = [threading.Semaphore(0) for _ in cfg]
-        self.main = threading.Semaphore(0)
+        # hand-off between the scheduler and the threads: raw locks used as binary semaphores (initially taken)
+        self.sems = [_taken_lock() for _ in cfg]
+        self.main = _taken_lock()
         self.aborting = False
         self.tls = threading.local()
         self.sleeps = [0] * self.n            # consecutive sleeps without anybody's access in between
@@ -55,6 +81,10 @@ class Run:
         self.appended = {}                    # ground truth: payloads appended to each hub queue, in order
         self.chans = [None] * self.n
         self.cb_events = []
+        self.away = [False] * self.n
+        self.away_where = {}
+        self.cur_op = [0] * self.n
+        self.threads = []
         self.bsocks = [[] for _ in cfg]
         self.line_sched = []                  # the line-level schedule actually executed
         self.failed_acq = [False] * self.n
@@ -182,19 +212,39 @@ class Run:
                 rec(s.nm + "_pop", list(k))
                 dict.__delitem__(s, k)
 
+        def wait_park(label):
+            """a blocking wait that is not satisfied yet: a scheduling point that counts like a polling sleep"""
+            tid = me()
+            if run.aborting:
+                raise _Abort()
+            if run.mode == "access":
+                run.park()
+            run.log.append((tid, label, None))
+            run.sleeps[tid] += 1
+            if run.mode != "access":
+                run.park()
+
         class CoopLock:
-            def __init__(s):
+            """cooperative stand-in for threading.Lock / RLock"""
+            def __init__(s, reentrant=False):
                 s.owner = None
+                s.count = 0
+                s.reentrant = reentrant
 
             def acquire(s, blocking=True, timeout=-1):
+                tries = 0
                 while True:
                     if run.mode == "access" and not run.aborting:
                         run.park()
-                    if s.owner is None:
+                    if s.owner is None or (s.reentrant and s.owner == me()):
                         s.owner = me()
+                        s.count += 1
                         rec("acq", pre=False)
                         return True
                     if not blocking:
+                        return False
+                    tries += 1
+                    if timeout is not None and timeout >= 0 and tries > 3:     # no wall clock: a timed acquire gives up
                         return False
                     run.failed_acq[me()] = True
                     if run.mode != "access":
@@ -205,11 +255,16 @@ class Run:
                     run.park()
                 if s.owner != me() and not run.aborting:
                     run.errors.append("release of a lock not held by the releasing thread")
-                s.owner = None
+                s.count = max(0, s.count - 1)
+                if s.count == 0:
+                    s.owner = None
                 rec("rel", pre=False)
 
             def locked(s):
                 return s.owner is not None
+
+            def _is_owned(s):
+                return s.owner == me()
 
             def __enter__(s):
                 s.acquire()
@@ -219,27 +274,171 @@ class Run:
                 s.release()
                 return False
 
+        class CoopEvent:
+            """cooperative stand-in for threading.Event: wait() is a scheduling point"""
+            def __init__(s):
+                s.flag = False
+
+            def is_set(s):
+                rec("ev_isset")
+                return s.flag
+
+            isSet = is_set
+
+            def set(s):
+                rec("ev_set")
+                s.flag = True
+
+            def clear(s):
+                rec("ev_clear")
+                s.flag = False
+
+            def wait(s, timeout=None):
+                tries = 0
+                while True:
+                    if s.flag:
+                        rec("ev_wait_ok")
+                        return True
+                    tries += 1
+                    if timeout is not None and tries > 3:      # no wall clock: a timed wait expires after a few rounds
+                        rec("ev_wait_timeout")
+                        return False
+                    wait_park("wait")
+
+        class CoopCondition:
+            """cooperative stand-in for threading.Condition (FIFO wake-up like CPython's)"""
+            def __init__(s, lock=None):
+                s.lock = lock if lock is not None else CoopLock(reentrant=True)
+                s.waiters = []
+                s.acquire = s.lock.acquire
+                s.release = s.lock.release
+
+            def __enter__(s):
+                s.lock.acquire()
+                return s
+
+            def __exit__(s, *a):
+                s.lock.release()
+                return False
+
+            def wait(s, timeout=None):
+                if s.lock.owner != me():
+                    raise RuntimeError("cannot wait on un-acquired lock")
+                ticket = [False]
+                s.waiters.append(ticket)
+                saved = s.lock.count
+                s.lock.count = 1
+                s.lock.release()
+                tries = 0
+                ok = True
+                while not ticket[0]:
+                    tries += 1
+                    if timeout is not None and tries > 3:
+                        ok = False
+                        if ticket in s.waiters:
+                            s.waiters.remove(ticket)
+                        break
+                    wait_park("wait")
+                s.lock.acquire()
+                s.lock.count = saved
+                return ok
+
+            def wait_for(s, predicate, timeout=None):
+                result = predicate()
+                tries = 0
+                while not result:
+                    tries += 1
+                    if timeout is not None and tries > 3:
+                        break
+                    s.wait(timeout)
+                    result = predicate()
+                return result
+
+            def notify(s, n=1):
+                if s.lock.owner != me():
+                    raise RuntimeError("cannot notify on un-acquired lock")
+                rec("cv_notify")
+                for ticket in s.waiters[:n]:
+                    ticket[0] = True
+                del s.waiters[:n]
+
+            def notify_all(s):
+                s.notify(len(s.waiters))
+
+            notifyAll = notify_all
+
+        class CoopSemaphore:
+            def __init__(s, value=1):
+                s.value = value
+
+            def acquire(s, blocking=True, timeout=None):
+                tries = 0
+                while True:
+                    if s.value > 0:
+                        s.value -= 1
+                        rec("sem_acq")
+                        return True
+                    if not blocking:
+                        return False
+                    tries += 1
+                    if timeout is not None and tries > 3:
+                        return False
+                    wait_park("wait")
+
+            def release(s, n=1):
+                rec("sem_rel")
+                s.value += n
+
+            __enter__ = acquire
+
+            def __exit__(s, *a):
+                s.release()
+
+        self.CoopLock = CoopLock
+        # ---- every blocking primitive the traced modules can name is replaced by a schedulable one (found by
+        # introspection of the module namespaces, so a rewrite of the hub to events / conditions is still explored)
+        import time as _time
+        import types
+        coop = {id(threading.Lock): lambda *a, **k: CoopLock(), id(threading.RLock): lambda *a, **k: CoopLock(reentrant=True),
+                id(threading.Event): CoopEvent, id(threading.Condition): CoopCondition,
+                id(threading.Semaphore): CoopSemaphore, id(threading.BoundedSemaphore): CoopSemaphore}
+
+        def psleep(t=0):
+            wait_park("sleep")
+
+        self.psleep = psleep
+        thr_proxy = types.SimpleNamespace(**{k: getattr(threading, k) for k in dir(threading) if not k.startswith("__")})
+        for nm in ("Lock", "RLock", "Event", "Condition", "Semaphore", "BoundedSemaphore"):
+            setattr(thr_proxy, nm, coop[id(getattr(threading, nm))])
+        time_proxy = types.SimpleNamespace(**{k: getattr(_time, k) for k in dir(_time) if not k.startswith("__")})
+        time_proxy.sleep = psleep
+        self._patched = []
+        for mod in (self.hubmod, self.sockmod, self.bcmod, self.tbcmod):
+            for nm, val in list(vars(mod).items()):
+                rep = None
+                if id(val) in coop and val in (threading.Lock, threading.RLock, threading.Event, threading.Condition,
+                                               threading.Semaphore, threading.BoundedSemaphore):
+                    rep = coop[id(val)]
+                elif val is _time.sleep:
+                    rep = psleep
+                elif val is threading:
+                    rep = thr_proxy
+                elif val is _time:
+                    rep = time_proxy
+                if rep is not None:
+                    self._patched.append((mod, nm, val))
+                    setattr(mod, nm, rep)
+
         hub = self.hubmod._SocketHub()
         hub._open_sockets = LSet("open")
         hub._remote_sockets = LSet("rem")
         hub._messages = LDD(list)
         hub._recv_callbacks = LDict("rcb")
         hub._conn_lost_callbacks = LDict("lcb")
-        hub._lock = CoopLock()
+        if not isinstance(getattr(hub, "_lock", None), CoopLock):
+            hub._lock = CoopLock()
         self.hub = hub
 
-        def psleep(t):
-            tid = me()
-            if run.aborting:
-                raise _Abort()
-            if run.mode == "access":
-                run.park()
-            run.log.append((tid, "sleep", None))
-            run.sleeps[tid] += 1
-            if run.mode != "access":
-                run.park()
-
-        self.psleep = psleep
 
         class HSock(self.sockmod.ThreadSocket):
             _SOCKET_HUB = hub
@@ -267,8 +466,14 @@ class Run:
     # ---------------------------------------------------------------- worker side
     def park(self):
         tid = self.tls.tid
-        self.status[tid] = "parked"
-        self.main.release()
+        if self.away[tid]:
+            # this thread had been given up by the watchdog (it sat in a wait the scheduler cannot see) and
+            # has come back by itself: it becomes schedulable again, the scheduler is not waiting for it
+            self.away[tid] = False
+            self.status[tid] = "parked"
+        else:
+            self.status[tid] = "parked"
+            _give(self.main)
         self.sems[tid].acquire()
         if self.aborting:
             raise _Abort()
@@ -363,6 +568,7 @@ class Run:
                 sys.settrace(self._tracer())
             for i, op in enumerate(self.cfg[tid]["ops"]):
                 cur[0] = i
+                self.cur_op[tid] = i
                 start = self.stamp
                 lstart = len(self.log)
                 try:
@@ -386,7 +592,10 @@ class Run:
             self.errors.append(f"thread {tid}: {type(e).__name__}: {e}")
         finally:
             sys.settrace(None)
-            self.main.release()
+            if self.away[tid]:
+                self.away[tid] = False
+            else:
+                _give(self.main)
 
     # ---------------------------------------------------------------- main side
     def runnable(self):
@@ -396,8 +605,26 @@ class Run:
         self.stamp += 1
         self.stale[tid] += 1
         self.line_sched.append(tid)
-        self.sems[tid].release()
-        self.main.acquire()
+        _give(self.sems[tid])
+        if not self.main.acquire(True, self.WATCHDOG):
+            self._stuck(tid)
+
+    def _stuck(self, tid):
+        """the resumed thread reached no scheduling point within the wall-clock bound: it is blocked inside
+        something the scheduler cannot see (a C-level wait on an un-patched primitive).  It is taken off the
+        schedule ("away") until it comes back by itself; the run goes on with the other threads."""
+        import traceback
+        self.away[tid] = True
+        if self.main.acquire(False):          # it came back this very moment
+            self.away[tid] = False
+            return
+        where = "?"
+        fr = sys._current_frames().get(self.threads[tid].ident)
+        if fr is not None:
+            st = traceback.extract_stack(fr)[-3:]
+            where = " <- ".join(f"{f.filename.split('/')[-1]}:{f.lineno} {f.name}" for f in reversed(st))
+        self.status[tid] = "away"
+        self.away_where[tid] = where
 
     def step(self, tid, mode):
         """Resume thread tid.  Returns False when it cannot run."""
@@ -417,9 +644,8 @@ class Run:
     def execute(self, chooser, mode="line"):
         """chooser(run, runnable) -> tid.  Runs to completion or quiescence."""
         self.mode = mode
-        old_sleep = self.hubmod.sleep
-        self.hubmod.sleep = self.psleep
         ths = [threading.Thread(target=self._worker, args=(t,), daemon=True) for t in range(self.n)]
+        self.threads = ths
         for t in ths:
             t.start()
         try:
@@ -430,6 +656,15 @@ class Run:
                 self.line_sched = []
             while True:
                 r = self.runnable()
+                if not r and "away" in self.status:
+                    # only threads blocked for real are left: give them a moment to come back
+                    t_end = _time.time() + 0.4
+                    while _time.time() < t_end and not self.runnable():
+                        _time.sleep(0.02)
+                    r = self.runnable()
+                    if not r:
+                        self.end_reason = "quiescent"
+                        break
                 if not r:
                     self.end_reason = "done"
                     break
@@ -448,13 +683,23 @@ class Run:
                 steps += 1
         finally:
             self.aborting = True
+            global LEAKED
             for t in range(self.n):
                 if self.status[t] in ("new", "parked"):
-                    self.sems[t].release()
-            for t in ths:
-                t.join(timeout=5)
-            self.hubmod.sleep = old_sleep
+                    _give(self.sems[t])
+                elif self.status[t] == "away":       # cannot be unwound: the thread stays blocked (daemon), it is leaked
+                    self.status[t] = "blocked"
+                    self.results[t].append((self.cur_op[t], "blocked", -1, -1, -1, len(self.log)))
+                    LEAKED += 1
+            for i, t in enumerate(ths):
+                t.join(timeout=0.05 if i in self.away_where and self.away[i] else 5)
+            self.restore()
         return self
+
+    def restore(self):
+        for mod, nm, val in reversed(self._patched):
+            setattr(mod, nm, val)
+        self._patched = []
 
     # ---------------------------------------------------------------- observations
     def outcome(self):
@@ -532,7 +777,7 @@ def pct_chooser(rng, n, depth=3, est_len=150):
     def ch(run, runnable):
         cnt[0] += 1
         c = last[0]
-        if c is not None and (run.failed_acq[c] or (run.log and run.log[-1][0] == c and run.log[-1][1] == "sleep")
+        if c is not None and (run.failed_acq[c] or (run.log and run.log[-1][0] == c and run.log[-1][1] in ("sleep", "wait"))
                               or (run.stale[c] >= 50 and run.stale[c] % 50 == 0)):   # busy-waiting without sleep
             demote(c)
         t = max(runnable, key=lambda x: pr[x])
